@@ -608,6 +608,17 @@ func (e *Exec) makeSlice(st *State, x *ssa.MakeSlice, where string) {
 	if !ok {
 		if l, ok2 := ln.ConstInt(); ok2 {
 			c = l
+		} else if cp == ln {
+			// make(T, n) with symbolic n: the backing array gets the stated maximum length; a longer
+			// slice is outside the bound (side obligation "symlen-bound": unsat = bound sufficient).
+			// cap() of such a slice is over-approximated by the maximum.
+			c = int64(e.MaxSymLen)
+			e.side("symlen-bound", st, e.S.Le(ln, e.S.Int(c)), where)
+			e.abortIf(st, e.S.Lt(ln, e.S.Int(0)), "panic", where)
+			at := types.NewArray(et, c)
+			id := e.newObj(st, at, e.zeroVal(at))
+			st.Regs[x] = &SliceV{Obj: id, Len: ln, Cap: int(c), Elem: et}
+			return
 		} else {
 			e.unsupported(st, "make with symbolic capacity at "+where)
 			st.Regs[x] = &Poison{Why: "make sym cap"}
